@@ -22,7 +22,12 @@ import traceback
 VERIF = os.path.dirname(os.path.dirname(os.path.abspath(__file__)))
 sys.path.insert(0, VERIF)
 VENV_PY = os.environ.get("VERIF_REPO_PYTHON", "/venv/bin/python")
-OUT = os.path.join(VERIF, "out")
+# VERIF_REPO / VERIF_OUT: evaluate another checkout of the library (seeded-change evaluation on scratch worktrees,
+# several at a time) without touching /repo, out/ and evidence/; the registered commands never set them
+REPO = os.environ.get("VERIF_REPO", "/repo")
+os.environ["PYVC_REPO"] = REPO
+OUT = os.environ.get("VERIF_OUT") or os.path.join(VERIF, "out")
+EVID = os.path.join(OUT, "evidence") if os.environ.get("VERIF_OUT") else os.path.join(VERIF, "evidence")
 
 
 def load_manifest_claim(prop):
@@ -74,7 +79,7 @@ def run_rtc(prop, tier, seed, jobs):
     if os.path.exists(outp):
         os.remove(outp)
     env = dict(os.environ)
-    env["PYTHONPATH"] = VERIF
+    env["PYTHONPATH"] = VERIF if REPO == "/repo" else VERIF + os.pathsep + REPO
     env["PYTHONDONTWRITEBYTECODE"] = "1"
     cmd = [VENV_PY, os.path.join(VERIF, "vf", "rtc_run.py"), mod, tier, str(seed), str(jobs), outp]
     t0 = time.time()
@@ -91,7 +96,7 @@ def native_replay(prop, payload):
     """Ask the repo interpreter to replay a counter-model / witness input.  -> dict or None."""
     os.makedirs(OUT, exist_ok=True)
     env = dict(os.environ)
-    env["PYTHONPATH"] = VERIF
+    env["PYTHONPATH"] = VERIF if REPO == "/repo" else VERIF + os.pathsep + REPO
     env["PYTHONDONTWRITEBYTECODE"] = "1"
     p = subprocess.run([VENV_PY, os.path.join(VERIF, "vf", "replay.py"), prop], input=json.dumps(payload),
                        cwd=VERIF, env=env, capture_output=True, text=True, timeout=600)
@@ -236,7 +241,7 @@ def main():
         content = {"property": prop, "obligation_key": key, "obligation": o, "model": o.get("model"),
                    "solver": o.get("solver"), "native_replay": rep,
                    "replay_payload": (rep or {}).get("payload") if reproduced else None,
-                   "repo_head": git_head("/repo"), "how": "./check %s --replay <this file>" % prop}
+                   "repo_head": git_head(REPO), "how": "./check %s --replay <this file>" % prop}
         path = write_replay(prop, "obl_" + key, content)
         k = match_known(known, prop, "obligation", key)
         if k is not None:
@@ -254,7 +259,7 @@ def main():
             content = {"property": prop, "witness_key": key, "what": w.get("what"), "inputs": w.get("inputs"),
                        "observed": w.get("observed"), "expected": w.get("expected"), "count": w.get("count"),
                        "replay_payload": {"mode": "rtc", "input": (w.get("inputs") or [None])[0]},
-                       "repo_head": git_head("/repo"), "how": "./check %s --replay <this file>" % prop}
+                       "repo_head": git_head(REPO), "how": "./check %s --replay <this file>" % prop}
             path = write_replay(prop, "rtc_" + key, content)
             if k is not None:
                 known_lines.append("KNOWN-FINDING: property=%s %s" % (prop, k.get("what", key)))
@@ -294,9 +299,9 @@ def main():
     ev = {"property_id": prop, "tier": a.tier, "seed": seed, "level": level, "coverage": cov,
           "assumptions": sorted(assumptions) + ["known-findings file: %d known, %d fixed entries" % (len(known), len(fixed))],
           "wall_s": round(time.time() - t0, 2), "violations": len(violations),
-          "repo_head": git_head("/repo"), "known_findings_reported": known_lines}
-    os.makedirs(os.path.join(VERIF, "evidence"), exist_ok=True)
-    with open(os.path.join(VERIF, "evidence", "%s.json" % prop), "w") as fh:
+          "repo_head": git_head(REPO), "known_findings_reported": known_lines}
+    os.makedirs(EVID, exist_ok=True)
+    with open(os.path.join(EVID, "%s.json" % prop), "w") as fh:
         json.dump(ev, fh, indent=1, default=str)
     # ---------------------------------------------------------------- report
     print("%s tier=%s: obligations=%d discharged=%d refuted=%d undecided=%d; bounded: %s; %.1fs" % (
@@ -309,7 +314,17 @@ def main():
         print(ln)
     for ln in violations:
         print(ln)
-    sys.exit(1 if violations else 0)
+    if violations:
+        sys.exit(1)
+    # neither held nor violated: some verification condition was left open by both solvers, or the code under
+    # contract now uses a construct outside the verified subset (the contract no longer covers that statement)
+    open_funcs = [f for f in funcs if f["status"] == "partial"]
+    if open_funcs:
+        for f in open_funcs:
+            print("UNDECIDED property=%s function=%s undecided_obligations=%d outside_subset=%s" % (
+                prop, f["function"], f["undecided"], f["outside_subset"][:3]))
+        sys.exit(2)
+    sys.exit(0)
 
 
 def z3_version():
